@@ -56,6 +56,8 @@ type e2World struct {
 	// noPreempt keeps the current actor running (exclusion by construction of a known finding's window)
 	noPreempt func(cur *vs.Actor) bool
 	held      int
+	// rank, when set, replaces the drawn schedule by a fixed priority policy (directed reproducers of known findings)
+	rank func(a *vs.Actor) int
 }
 
 const e2FairAge = 400
@@ -208,6 +210,15 @@ func (w *e2World) choose(en []*vs.Actor, cur *vs.Actor) int {
 			w.diverged = true
 		}
 		return 0
+	}
+	if w.rank != nil {
+		best, bi := 1<<30, 0
+		for k, a := range en {
+			if r := w.rank(a); r < best {
+				best, bi = r, k
+			}
+		}
+		return bi
 	}
 	t := w.t
 	// fairness: an enabled actor that has not run for a long time goes first, whatever the strategy says.
@@ -503,4 +514,30 @@ func (w *e2World) excludeF13() {
 		}
 	}
 	w.noPreempt = func(cur *vs.Actor) bool { return in[cur.ID] && !cur.Done() }
+}
+
+// directF13 installs the fixed schedule that reproduces known finding F13: everything runs in natural
+// order, but once the hang-up goroutine has won closeBy(poller) the handler task goes first.
+func (w *e2World) directF13() {
+	pClose := e2PointID("connection_lock.go", "keychain[closing], 0, w")
+	passed := map[int]bool{}
+	w.stepHook = func(step int, a *vs.Actor) {
+		if strings.HasPrefix(a.Name, "go@") && a.Point() == pClose {
+			passed[a.ID] = true
+		}
+	}
+	w.rank = func(a *vs.Actor) int {
+		switch {
+		case strings.HasPrefix(a.Name, "go@"):
+			if passed[a.ID] {
+				return 4
+			}
+			return 2
+		case strings.HasPrefix(a.Name, "task"):
+			return 3
+		case strings.HasPrefix(a.Name, "poller"):
+			return 1
+		}
+		return 0
+	}
 }
